@@ -60,6 +60,39 @@ def run(ctx):
     _raise_with_cause(ctx)
 
 
+def _force_after(ctx, cls, initial, reraise, body):
+    """What force_reraise() raises when it is called after __exit__ saw the
+    body raise (the caller caught that new exception)."""
+    world = ctx.world
+
+    def thunk(interp):
+        orig = exc_obj('orig', 'ValueError')
+        _fake_frame(interp, orig)
+        try:
+            obj = interp.call(cls, [], {'reraise': K(initial),
+                                        'logger': logger_obj()})
+            interp.call(interp.get_attr(obj, '__enter__'), [])
+        finally:
+            interp.frames.pop()
+        if initial != reraise:
+            interp.set_attr(obj, 'reraise', K(reraise))
+        name = 'KeyError' if body == 'Exception' else 'KeyboardInterrupt'
+        new = exc_obj('new', name)
+        interp.call(interp.get_attr(obj, '__exit__'),
+                    [ExtRef(name), new, T('sym', 'new_tb')])
+        return interp.call(interp.get_attr(obj, 'force_reraise'), [])
+    outcomes, _i = extract(world, thunk, setup=_setup)
+    if not outcomes or inexact_notes(outcomes):
+        return None
+    seen = []
+    for o in outcomes:
+        r = o.value.label if o.kind == 'raise' and \
+            isinstance(o.value, Obj) else o.brief()
+        if r not in seen:
+            seen.append(r)
+    return seen[0] if len(seen) == 1 else ' / '.join(seen)
+
+
 TBS = [T('sym', n) for n in ('saved_tb', 'other_tb', 'new_tb', 'old_tb',
                               'tb')]
 
@@ -113,8 +146,15 @@ def _save_and_reraise(ctx):
                     finally:
                         interp.frames.pop()
                     if initial != reraise:
-                        # the handler body flips the public flag
-                        interp.set_attr(obj, 'reraise', K(reraise))
+                        # the handler body flips the public flag - inside
+                        # the except block of an inner raise-and-catch, so
+                        # another exception is the active one at that time
+                        inner = exc_obj('inner', 'LookupError')
+                        _fake_frame(interp, inner)
+                        try:
+                            interp.set_attr(obj, 'reraise', K(reraise))
+                        finally:
+                            interp.frames.pop()
                     if entered is not obj:
                         interp.inexact('__enter__ does not return the '
                                        'context')
@@ -147,6 +187,21 @@ def _save_and_reraise(ctx):
                               'new exception propagates' % (label,
                                                             o.brief()),
                               case=label)
+                    # the caller catches the new exception and asks the
+                    # context for the original afterwards
+                    if o.kind == 'return' and body != 'the original itself':
+                        later = _force_after(ctx, cls, initial, reraise, body)
+                        if later is None:
+                            rep.undecided('R9.2', 'force_reraise[after the '
+                                          'body raised]', '%s: inexact' %
+                                          label)
+                            later = 'orig'
+                        rep.check('R9.2', 'force_reraise[after the body '
+                                  'raised]', later == 'orig',
+                                  '%s: force_reraise() called after '
+                                  '__exit__ raises %s; required the saved '
+                                  'original object' % (label, later),
+                                  case=label)
                     rep.check('R9.1', '__exit__[log]',
                               (len(logs) == 1) == reraise,
                               '%s: original exception logged %d time(s); '
